@@ -3,7 +3,7 @@ FRAGMENT = {
  'C11': {'bin': 'w_c11',
  'world': 'c11',
  'level': 'exploration',
- 'quick': {'runs': 120000, 'budget_s': 30, 'workers': 16},
+ 'quick': {'runs': 400000, 'budget_s': 30, 'workers': 16},
  'thorough': {'runs': 6000000, 'budget_s': 600, 'workers': 16, 'det_sample': 200},
  'level_text': 'seeded exploration of registration histories (register / unregister / legacy add / legacy remove, masks 0, single bits, unions, -1, '
                '2-6 handler identities in four function/user-pointer layouts) x re-entrancy scripts (which handler does what to itself, the next, the '
